@@ -26,7 +26,34 @@ def run_c18(res, tier):
     return {}
 
 
+def run_c08(res, tier):
+    import iolim, jit
+    ast = load_ast()
+    iolim.run_io_map(res, ast)
+    iolim.run_io_discipline(res, ast)
+    jit.run_jit_rules(res, ast, ["JIT-TERM"])
+    return {}
+
+
+def run_c07(res, tier):
+    import iolim, jit
+    ast = load_ast()
+    iolim.run_lim(res, ast)
+    jit.run_jit_rules(res, ast, ["LIM-JIT", "FRAME"])
+    return {}
+
+
+def run_c16(res, tier):
+    import cli
+    ast = load_ast()
+    cli.run_cli(res, ast)
+    return {}
+
+
 REGISTRY = {
+    "C16": {"run": run_c16, "level": "other", "technique": "t", "claim": "c", "note": "n", "explanation": "e", "not_decided": []},
+    "C08": {"run": run_c08, "level": "other", "technique": "t", "claim": "c", "note": "n", "explanation": "e", "not_decided": []},
+    "C07": {"run": run_c07, "level": "other", "technique": "t", "claim": "c", "note": "n", "explanation": "e", "not_decided": []},
     "C18": {
         "run": run_c18,
         "level": "other",
